@@ -166,7 +166,14 @@ func zzSpecBinary(sv *zzsv.T, op string, l, r zv) (int, zv) {
 		if err != nil {
 			return kUnspec, zv{}
 		}
-		m := re.MatchString(l.s)
+		// (the subject is matched line by line, each line without its
+		// surrounding blanks - environment/builtins.go, `match`)
+		m := false
+		for _, line := range strings.Split(l.s, "\n") {
+			if re.MatchString(strings.TrimSpace(line)) {
+				m = true
+			}
+		}
 		if op == "~=" {
 			return kValue, zBool(m)
 		}
@@ -207,8 +214,8 @@ func zzSpecBinary(sv *zzsv.T, op string, l, r zv) (int, zv) {
 	panic("zzSpecBinary: unknown operator " + op)
 }
 
-// zzRegexSubjects are single-line subjects without surrounding blanks.
-var zzRegexSubjects = []string{"", "a", "bb", "AB", "xaby"}
+// zzRegexSubjects: single- and multi-line subjects, with and without surrounding blanks.
+var zzRegexSubjects = []string{"", "a", "bb", "AB", "xaby", " a", "bb ", "\tbb\n", "x\n bb \nx", " ", "a\n"}
 
 // ZZ_C01_Binary: `return a OP b;` for every operator and every ordered pair
 // of operand types, payloads symbolic.
